@@ -4,6 +4,7 @@ checkpoint histories on them through the public API (`it.state`, `.from_state(..
 A case:
   src     {'kind':'seq','chain':[{'idx','num','off'},...], 'parts':[sizes]?}   SequenceDataSource(...).shard(...)...
           {'kind':'iter','idx','num','off'}                                   ShardedIterable(...).shard(idx,num) [from_state for off]
+  pipe.chain2 {'a','b'}      a second named transform (its own runner) chained after the aggregate's transform
   data    [[row,...],...]    one list of int rows per source element
   scalar  bool               source elements are the ints data[i][0] (else the lists themselves)
   pipe    None | {'a','b','drop':None|{'m','r'},'target':t,'agg':'sumcount'|'sumcount_inplace'|'meanvar','via':'batch'|'apply'}
@@ -105,7 +106,8 @@ def build_pipeline(case, ds):
     fn = lambda x: a * x + b
   else:
     fn = lambda rows: [a * x + b for x in rows]
-  p = transform.TreeTransform(num_threads=case.get('threads', 0)).data_source(ds)
+  c2 = pc.get('chain2')
+  p = transform.TreeTransform(name='a' if c2 else '', num_threads=case.get('threads', 0)).data_source(ds)
   t = pc.get('target', 0)
   if t and pc.get('via') == 'apply':
     p = p.apply(fn, batch_size=t)
@@ -123,6 +125,11 @@ def build_pipeline(case, ds):
     p = p.agg(SumCountInPlace())
   elif agg == 'meanvar':
     p = p.agg(rolling_stats.MeanAndVariance().as_agg_fn())
+  if c2:
+    # a second named transform = a second runner whose data source is the first runner's iterator
+    a2, b2 = c2['a'], c2['b']
+    fn2 = (lambda y: a2 * y + b2) if case['scalar'] else (lambda rows: [a2 * y + b2 for y in rows])
+    p = p.chain(transform.TreeTransform(name='b').apply(fn2))
   return p
 
 
